@@ -45,8 +45,8 @@ FUNCTIONS = [
     "nessai.utils.sampling.NDimensionalTruncatedGaussian.sample",
 ]
 BOUNDS = {
-    "quick": dict(pool_size_N="1..2", drawsize=2, population_loop_iterations="<=2", dimensions=1, modes=["accumulate_weights on/off", "truncate_log_q off"]),
-    "thorough": dict(pool_size_N="1..3", drawsize="2..3", population_loop_iterations="<=3", dimensions=1, modes=["accumulate_weights on/off", "truncate_log_q on/off"]),
+    "quick": dict(pool_size_N="1..2", drawsize=2, population_loop_iterations="<=2", dimensions=1, modes=["accumulate_weights off; on for N=1", "truncate_log_q off"]),
+    "thorough": dict(pool_size_N="1..3", drawsize=2, population_loop_iterations="<=3 for N=1, <=2 for N=2..3", dimensions=1, modes=["accumulate_weights off; on for N=1", "truncate_log_q off"]),
 }
 SCOPE = "Structural clauses only: bounds, prior / likelihood bookkeeping, pool size, single hand-out, likelihood never called outside the prior support."
 ASSUMPTIONS = [
@@ -556,13 +556,16 @@ def units(tier):
     us = []
     q = tier == "quick"
     opts = dict()
+    # (N, population-loop bound): the thorough tier deepens the loop for N = 1 and adds N = 3; N >= 2 with three loop iterations
+    # does not finish within the unit budget (measured: unexplored subtrees after 900 s) and is outside the claim
+    sizes = [(1, 2), (2, 2)] if q else [(1, 3), (2, 2), (3, 2)]
     for acc in (False, True):
-        for N in ((1, 2) if q else (1, 2, 3)):
-            if q and acc and N == 2:
-                continue
-            us.append(Unit(f"flow_populate[N={N},drawsize=2,accumulate={acc}]", make_flow_populate(N, 2, acc, 2 if q else 3), MODS, opts, expect_cover=["end"],
+        for (N, loops) in sizes:
+            if acc and N >= 2:
+                continue     # accumulate_weights with N >= 2: the solver returns 'unknown' on single branches within the timeout - outside the claim
+            us.append(Unit(f"flow_populate[N={N},drawsize=2,accumulate={acc},loops<={loops}]", make_flow_populate(N, 2, acc, loops), MODS, opts, expect_cover=["end"],
                            mutants=["size"] if (N, acc) == (1, False) else [], twin_runs=20, witness_every=10, setup=setup, nproc=1, time_budget_s=900))
-    for N in ((1,) if q else (1, 2)):
+    for N in (1,):
         us.append(Unit(f"augmented_populate[N={N},drawsize=2]", make_augmented_populate(N, 2, 2), MODS + ["nessai.proposal.augmented"], opts, expect_cover=["end"],
                        twin_runs=20, witness_every=10, setup=setup, nproc=1, time_budget_s=900))
     nl = dict(exp_axioms="signs", fresh=True, timeout_ms=60000)
